@@ -21,6 +21,7 @@ EXPLANATION = (
     "(3) hosts == `||host^` — every Ok of parse_hosts_style is the result of NetworkFilter::parse on a "
     "string assembled from \"||\", the (lower-cased, www-stripped, punycoded) hostname and '^'; "
     "(4) rule-type options — decision table of parse_filter over format x rule_types x detected type."
+    ' Later additions: the JSON keys of ParseOptions / RuleTypes / FilterFormat are the established ones (read from the derived field visitors); every location of a cosmetic line is recorded or the line is rejected (no iteration of the location loop falls through); parse_filter forwards what the parsers return unchanged (closures that only call Into::into); the per-line loops contain no truncating adapter or `break`; ParseOptions::permissions applies to the rules of its own list (C18.2).'
 )
 NOT_DECIDED = "That the accepted grammar is the intended one; behaviour of the regex / idna / addr dependencies."
 
